@@ -6,5 +6,6 @@ export CARGO_NET_OFFLINE=true RUST_BACKTRACE=0
 [ -f harness/Cargo.lock ] || cp /repo/Cargo.lock harness/Cargo.lock
 (cd harness && cargo build --release --offline --quiet)
 python3 tools/coqbuild all
+(cd /repo && cargo build --release --example dlint --offline --quiet --target-dir /verif/work/target-dlint)
 (cd ocaml && make -s -j4)
 echo setup done
